@@ -237,4 +237,188 @@ theorem replace_final (cfg : Cfg) (st : RState) (t : Target) (e0 : Entry) (rest 
       rw [this]
       exact hfirst
 
+/-! ## bidirectional replay (buildBisyncRdbReplayUnit with `skippedKey` + execBisyncRdbUnit)
+
+  Hypothesis `e0.key ≠ []`: the builder treats an entry with an empty key as
+  having no business key (no probe, no DEL) — see the property config. -/
+
+/-- **ignore** (bidirectional): only the EXISTS probe is sent; no unit is built
+    for the first nor for ANY later chunk of the key; the target is unchanged. -/
+theorem ignore_untouched_bisync (cfg : Cfg) (st : RState) (t : Target) (e0 : Entry) (rest : List Entry) (o : Obj)
+    (g : Group e0 rest) (hk : e0.key ≠ []) (hex : t.get e0.key = some o) :
+    (runBisync .ignore cfg st t (e0 :: rest)).out = .ok ∧
+    (runBisync .ignore cfg st t (e0 :: rest)).reqs = [Req.exists e0.key] ∧
+    (runBisync .ignore cfg st t (e0 :: rest)).tgt = t := by
+  cases hr : rest with
+  | nil =>
+    have h : buildUnit .ignore cfg st (viewOf t e0) e0 = ([Req.exists e0.key], [], .skip, if e0.splited then some e0.key else none) := by
+      rw [view_some hex]; simp [buildUnit, g.data, g.first, hk]
+    obtain ⟨h1, h2, h4⟩ := runBisync_cons_ok _ _ _ _ _ [] _ _ _ _ rfl h
+    simp only [runBisync_nil, reduceCtorEq, if_false, List.append_nil] at h1 h2 h4
+    exact ⟨h2, h1, by rw [h4]; rfl⟩
+  | cons e1 rest' =>
+    have hsp : e0.splited = true := g.split (by rw [hr]; simp)
+    have h : buildUnit .ignore cfg st (viewOf t e0) e0 = ([Req.exists e0.key], [], .skip, some e0.key) := by
+      rw [view_some hex]; simp [buildUnit, g.data, g.first, hk, hsp]
+    obtain ⟨h1, h2, h4⟩ := runBisync_cons_ok _ _ _ _ _ (e1 :: rest') _ _ _ _ rfl h
+    simp only [reduceCtorEq, if_false, List.append_nil] at h1 h2 h4
+    obtain ⟨s1, s2, s3⟩ := runBisync_later_skip .ignore cfg e0.key hk (e1 :: rest') (applyReqs t [Req.exists e0.key])
+      (by rw [← hr]; exact g.later)
+    rw [s1] at h1; rw [s2] at h2; rw [s3] at h4
+    exact ⟨h2, by simpa using h1, by rw [h4]; rfl⟩
+
+/-- **error** (bidirectional): the builder fails with the key-exists error after
+    the EXISTS probe; nothing is written. -/
+theorem error_before_modify_bisync (cfg : Cfg) (st : RState) (t : Target) (e0 : Entry) (rest : List Entry) (o : Obj)
+    (g : Group e0 rest) (hk : e0.key ≠ []) (hex : t.get e0.key = some o) :
+    (runBisync .error cfg st t (e0 :: rest)).out = .errExists ∧
+    (runBisync .error cfg st t (e0 :: rest)).reqs = [Req.exists e0.key] ∧
+    (runBisync .error cfg st t (e0 :: rest)).tgt = t := by
+  have h : buildUnit .error cfg st (viewOf t e0) e0 = ([Req.exists e0.key], [], .errExists, none) := by
+    rw [view_some hex]; simp [buildUnit, g.data, g.first, hk]
+  obtain ⟨h1, h2, h3⟩ := runBisync_cons_err _ _ _ _ _ rest _ _ _ _ (by simp [bOut]) h
+  simp only [reduceCtorEq, if_false, List.append_nil] at h1 h2 h3
+  exact ⟨h2, h1, by rw [h3]; rfl⟩
+
+/-- **replace** (bidirectional): RESTORE … REPLACE, or DEL + native commands in
+    the first unit and native commands in the later units — the target ends
+    with exactly the snapshot's value and expiry, whatever it held before. -/
+theorem replace_final_bisync (cfg : Cfg) (st : RState) (t : Target) (e0 : Entry) (rest : List Entry)
+    (g : Group e0 rest) (v : Value e0 rest) (hk : e0.key ≠ []) :
+    (runBisync .replace cfg st t (e0 :: rest)).out = .ok ∧
+    (runBisync .replace cfg st t (e0 :: rest)).tgt.get e0.key = some (snapshotObj cfg t.now e0 rest) ∧
+    (∀ d k, ¬ (d = t.cur ∧ k = e0.key) → (runBisync .replace cfg st t (e0 :: rest)).tgt.ks d k = t.ks d k) ∧
+    (runBisync .replace cfg st t (e0 :: rest)).tgt.cur = t.cur := by
+  have hlater : ∀ e ∈ rest, e.key = e0.key ∧ (∀ c ∈ e.cmds, cmdKey c = e0.key) ∧ (e.expireAt = 0 ∨ e.expireAt = e0.expireAt) :=
+    fun e he => ⟨(g.later e he).key, v.cr e he, v.exp e he⟩
+  by_cases hu : useRestore cfg e0 = true
+  · have hr : rest = [] := rest_nil_of_restore g hu
+    subst hr
+    let r1 := Req.restore e0.key (ttlMs cfg.now e0.expireAt) e0.dump (restoreOpts cfg e0) true
+    have h : buildUnit .replace cfg st (viewOf t e0) e0 = ([], [r1], .unit, none) := by
+      simp [buildUnit, g.data, g.first, hk, hu, r1]
+    obtain ⟨_, h2, h4⟩ := runBisync_cons_ok _ _ _ _ _ [] _ _ _ _ rfl h
+    simp only [runBisync_nil, if_true, List.nil_append] at h2 h4
+    rw [h2, h4]
+    refine ⟨rfl, ?_⟩
+    apply final_of_reqs t e0 (execUnit [r1]) (execUnit_onKey (by intro r hr; simp at hr; subst hr; simp [onKey, r1]))
+    rw [objSteps_execUnit]
+    cases hex : t.get e0.key <;>
+      simp [objSteps, objStep, reqKey, objEffect, r1, snapshotObj, hu, restore_exp]
+  · have hu' : useRestore cfg e0 = false := by simpa using hu
+    have hexp_on := expand_onKey cfg e0.key e0 rfl v.c0
+    have hrest_on := flatMap_units_onKey cfg e0.key rest (fun e he => ⟨(hlater e he).1, (hlater e he).2.1⟩)
+    have h : buildUnit .replace cfg st (viewOf t e0) e0 = ([], Req.del e0.key :: expand cfg e0, .unit, none) := by
+      simp [buildUnit, g.data, g.first, hk, hu', expandB_eq cfg e0 hk]
+    obtain ⟨_, h2, h4⟩ := runBisync_cons_ok _ _ _ _ _ rest _ _ _ _ rfl h
+    simp only [if_true, List.nil_append] at h2 h4
+    have hl := fun t' => runBisync_later_expand .replace cfg e0.key hk none (by simp) rest t' g.later
+    rw [h2, h4, (hl _).2.1, (hl _).2.2, ← applyReqs_append]
+    refine ⟨rfl, ?_⟩
+    apply final_of_reqs t e0 _ (by
+      intro r hr
+      rcases List.mem_append.mp hr with hr | hr
+      · exact execUnit_onKey (by
+          intro x hx
+          rcases List.mem_cons.mp hx with rfl | hx
+          · simp [onKey]
+          · exact hexp_on x hx) r hr
+      · exact hrest_on r hr)
+    rw [objSteps_append, objSteps_execUnit]
+    have : objSteps e0.key t.now (t.get e0.key) (Req.del e0.key :: expand cfg e0)
+        = objSteps e0.key t.now none (expand cfg e0) := by
+      simp [objSteps, objStep, reqKey, objEffect]
+    rw [this, objSteps_expand_none cfg e0.key t.now e0 rfl v.c0 v.ne,
+      objSteps_later_units cfg e0.key t.now e0.expireAt rest e0.cmds hlater]
+    simp [snapshotObj, hu']
+
+/-! ## keys that are NOT on the target ("any subset of the snapshot's keys present") -/
+
+/-- plain replay, any policy: a key the target does not hold ends with exactly
+    the snapshot's value and expiry -/
+theorem absent_final (pol : Policy) (cfg : Cfg) (st : RState) (t : Target) (e0 : Entry) (rest : List Entry)
+    (g : Group e0 rest) (v : Value e0 rest) (hex : t.get e0.key = none) :
+    (runPlain pol cfg st t (e0 :: rest)).out = .ok ∧
+    (runPlain pol cfg st t (e0 :: rest)).tgt.get e0.key = some (snapshotObj cfg t.now e0 rest) ∧
+    (∀ d k, ¬ (d = t.cur ∧ k = e0.key) → (runPlain pol cfg st t (e0 :: rest)).tgt.ks d k = t.ks d k) := by
+  have hlater : ∀ e ∈ rest, e.key = e0.key ∧ (∀ c ∈ e.cmds, cmdKey c = e0.key) ∧ (e.expireAt = 0 ∨ e.expireAt = e0.expireAt) :=
+    fun e he => ⟨(g.later e he).key, v.cr e he, v.exp e he⟩
+  by_cases hu : useRestore cfg e0 = true
+  · have hr : rest = [] := rest_nil_of_restore g hu
+    subst hr
+    let r0 := Req.restore e0.key (ttlMs cfg.now e0.expireAt) e0.dump (restoreOpts cfg e0) false
+    have h : replay pol cfg st (viewOf t e0) e0 = ([r0], .ok, st) := by
+      rw [view_none hex]; simp [replay, g.data, hu, r0]
+    obtain ⟨_, h2, _, h4⟩ := runPlain_cons_ok _ _ _ _ _ [] _ _ h
+    simp only [runPlain_nil] at h2 h4
+    rw [h2, h4]
+    refine ⟨rfl, ?_⟩
+    have := final_of_reqs t e0 [r0] (by intro r hr; simp at hr; subst hr; simp [onKey, r0]) (snapshotObj cfg t.now e0 [])
+      (by simp [objSteps, objStep, reqKey, objEffect, hex, r0, snapshotObj, hu, restore_exp])
+    exact ⟨this.1, this.2.1⟩
+  · have hu' : useRestore cfg e0 = false := by simpa using hu
+    have hexp_on := expand_onKey cfg e0.key e0 rfl v.c0
+    have hrest_on := flatMap_expand_onKey cfg e0.key rest (fun e he => ⟨(hlater e he).1, (hlater e he).2.1⟩)
+    have hl := fun t' => runPlain_later_expand pol cfg e0.key none (by simp) rest t' g.later
+    have h : replay pol cfg st (viewOf t e0) e0 = (Req.exists e0.key :: expand cfg e0, .ok, none) := by
+      rw [view_none hex]; simp [replay, g.data, hu', g.first]
+    obtain ⟨_, h2, _, h4⟩ := runPlain_cons_ok _ _ _ _ _ rest _ _ h
+    rw [h2, h4, (hl _).2.1, (hl _).2.2, ← applyReqs_append]
+    refine ⟨rfl, ?_⟩
+    have := final_of_reqs t e0 (Req.exists e0.key :: expand cfg e0 ++ rest.flatMap (expand cfg)) (by
+        intro r hr
+        simp only [List.cons_append, List.mem_cons, List.mem_append] at hr
+        rcases hr with rfl | hr | hr
+        · simp [onKey]
+        · exact hexp_on r hr
+        · exact hrest_on r hr) (snapshotObj cfg t.now e0 rest) (by
+        have : objSteps e0.key t.now none (Req.exists e0.key :: (expand cfg e0 ++ rest.flatMap (expand cfg)))
+            = objSteps e0.key t.now none (expand cfg e0 ++ rest.flatMap (expand cfg)) := by
+          simp [objSteps, objStep, reqKey]
+        rw [hex]
+        simp only [List.cons_append]
+        rw [this, objSteps_append, objSteps_expand_none cfg e0.key t.now e0 rfl v.c0 v.ne,
+          objSteps_later cfg e0.key t.now e0.expireAt rest e0.cmds hlater]
+        simp [snapshotObj, hu'])
+    exact ⟨this.1, this.2.1⟩
+
+/-! ## non-vacuity: a split hash `h` (three chunks, expiry) meeting an old value with a TTL -/
+
+def exCmd (f v : UInt8) : Cmd := { name := [104, 115, 101, 116], args := [[104], [102, f], [118, v]] }
+def exE0 : Entry :=
+  { db := 0, key := [104], otype := .data, first := true, splited := true, canRestore := true,
+    dumpSize := 30, expireAt := 5000, idle := 0, freq := 0, dump := [4, 3], cmds := [exCmd 49 49] }
+def exE1 : Entry := { exE0 with first := false, cmds := [exCmd 50 50] }
+def exE2 : Entry := { exE0 with first := false, expireAt := 0, cmds := [exCmd 51 51] }
+/-- the same value small enough for RESTORE -/
+def exR : Entry := { exE0 with splited := false, cmds := [exCmd 49 49, exCmd 50 50] }
+def exCfg : Cfg := { enableRestore := true, maxBulk := 1000, ver5 := true, now := 1000 }
+def exT : Target := { cur := 0, now := 1000, ks := fun d k => if d = 0 ∧ k = [104] then some { val := .old 0, exp := 777 } else none }
+
+example : Group exE0 [exE1, exE2] :=
+  ⟨rfl, rfl, by intro e he; simp at he; rcases he with rfl | rfl <;> exact ⟨rfl, rfl, rfl, rfl⟩, fun _ => rfl⟩
+example : Value exE0 [exE1, exE2] :=
+  ⟨by intro c hc; simp [exE0] at hc; subst hc; rfl, by simp [exE0],
+   by intro e he c hc; simp at he; rcases he with rfl | rfl <;> (simp [exE1, exE2, exE0] at hc; subst hc; rfl),
+   by intro e he; simp at he; rcases he with rfl | rfl <;> simp [exE1, exE2, exE0]⟩
+example : Group exR [] := ⟨rfl, rfl, by simp, by simp⟩
+example : exT.get exE0.key = some { val := .old 0, exp := 777 } := rfl
+example : useRestore exCfg exE0 = false ∧ useRestore exCfg exR = true := by decide
+-- ignore: one EXISTS for three chunks; one refused RESTORE on the payload path
+example : (runPlain .ignore exCfg none exT [exE0, exE1, exE2]).reqs = [Req.exists [104]] := by decide
+example : (runPlain .ignore exCfg none exT [exR]).reqs = [Req.restore [104] 4000 [4, 3] [] false] := by decide
+example : (runBisync .ignore exCfg none exT [exE0, exE1, exE2]).reqs = [Req.exists [104]] := by decide
+-- error
+example : (runPlain .error exCfg none exT [exE0, exE1, exE2]).out = .errExists := by decide
+example : (runBisync .error exCfg none exT [exE0, exE1, exE2]).out = .errExists := by decide
+-- replace: DEL, then the three chunks; the object is exactly the snapshot's (expiry 1000 + 4000)
+example : (runPlain .replace exCfg none exT [exE0, exE1, exE2]).reqs =
+    [Req.exists [104], Req.del [104], Req.data (exCmd 49 49), Req.pexpire [104] 4000,
+     Req.data (exCmd 50 50), Req.pexpire [104] 4000, Req.data (exCmd 51 51)] := by decide
+example : (runPlain .replace exCfg none exT [exE0, exE1, exE2]).tgt.get [104] =
+    some { val := .native [exCmd 49 49, exCmd 50 50, exCmd 51 51], exp := 5000 } := by decide
+example : (runBisync .replace exCfg none exT [exE0, exE1, exE2]).tgt.get [104] =
+    some { val := .native [exCmd 49 49, exCmd 50 50, exCmd 51 51], exp := 5000 } := by decide
+example : (runPlain .replace exCfg none exT [exR]).tgt.get [104] = some { val := .restored [4, 3], exp := 5000 } := by decide
+
 end GunYu.Props.C20
